@@ -157,6 +157,7 @@ def natOfNumAtom (s : String) : Nat :=
   | some ip => (ip.toNat?).getD 0
   | none => 0
 
+mutual
 /-- `resolve_indexed_access` -/
 def resolveIndexed (fuel : Nat) (st : St) (obj index : Node) : Option Node × St :=
   match fuel with
@@ -189,7 +190,16 @@ def resolveIndexed (fuel : Nat) (st : St) (obj index : Node) : Option Node × St
           (pack props, st)
         | some _ => (none, st)
         | none =>
-          if b == "u" && n == "Array" then ((typeParamsList tparams).head?, st) else (none, st)
+          if b == "u" && n == "Array" then ((typeParamsList tparams).head?, st)
+          else if b == "u" && (n == "Partial" || n == "Required" || n == "Pick" || n == "Omit") then
+            -- `resolve_indexed_access_through_members`: into the type literal made of the resolved members
+            let (ms, st) := resolveElements fuel st obj
+            resolveIndexed fuel st (.mk .tsTypeLit [] [nList ms]) index
+          else (none, st)
+    | .mk .tsIntersection _ _ =>
+      let (ms, st) := resolveElements fuel st obj
+      resolveIndexed fuel st (.mk .tsTypeLit [] [nList ms]) index
+    | .mk .tsParen _ [t] => resolveIndexed fuel st t index
     | .mk .tsTypeLit _ [.mk .list _ members] =>
       let (props, st) := selectMembers fuel st members index
       (pack props, st)
@@ -277,6 +287,7 @@ def resolveElements (fuel : Nat) (st : St) (ty : Node) : List Node × St :=
     | .mk .tsParen _ [t] => resolveElements fuel st t
     | .mk .tsOptional _ [t] => resolveElements fuel st t
     | _ => ([], st.err unresolvable)
+end
 
 def memberRuntime (members : List Node) : List RT :=
   members.foldl (fun acc m =>
